@@ -170,14 +170,8 @@ class Gen:
         if r < 0.64:
             self.in_loop += 1
             cnt = "w%d" % self.tick()
-            if self.in_func:
-                pre = []
-                cnt = "x"
-                body = ["x = x - 1"] + [l for l in self.block(depth + 1) if not l.lstrip().startswith("x ")]
-                pre = ["x = %d" % self.rng.randrange(1, 4)]
-            else:
-                pre = ["%s = %d" % (cnt, self.rng.randrange(1, 4))]
-                body = ["%s -= 1" % cnt] + self.block(depth + 1)
+            pre = ["%s = %d" % (cnt, self.rng.randrange(1, 4))]
+            body = ["%s -= 1" % cnt] + self.block(depth + 1)
             self.in_loop -= 1
             return pre + ["while %s > 0:" % cnt] + self.ind(body)
         if r < 0.78 and not self.in_func:
